@@ -6,10 +6,42 @@ from .codec import U
 from .codec_cmp import Problem
 
 
+def _with_helpers_inlined(prog, mod, fn):
+    """The primitive's function node, with calls of module helpers that are not primitives themselves written out in place
+    (so that `return _uint16At(encoded, 0)` is read as the expression it stands for)."""
+    import copy
+    from .codec_inline import inlined_body, PRIMITIVES
+    calls = [x for x in ast.walk(fn.node) if isinstance(x, ast.Call) and isinstance(x.func, ast.Name) and x.func.id in mod.funcs
+             and x.func.id not in PRIMITIVES]
+    if not calls:
+        return fn.node
+    body, _ = inlined_body(prog, None, fn)
+    # fold the single-use temporaries of the inliner back into the expressions that use them: t = E; return f(t)  ->  return f(E)
+    changed = True
+    while changed:
+        changed = False
+        for i, s in enumerate(body):
+            if isinstance(s, ast.Assign) and len(s.targets) == 1 and isinstance(s.targets[0], ast.Name) and s.targets[0].id.startswith("__h"):
+                nm = s.targets[0].id
+                uses = [(j, x) for j, st_ in enumerate(body) for x in ast.walk(st_) if isinstance(x, ast.Name) and x.id == nm and isinstance(x.ctx, ast.Load)]
+                stores = [x for st_ in body for x in ast.walk(st_) if isinstance(x, ast.Name) and x.id == nm and isinstance(x.ctx, ast.Store)]
+                if len(uses) == 1 and len(stores) == 1 and uses[0][0] > i and not isinstance(body[uses[0][0]], (ast.If, ast.For, ast.While)):
+                    class Sub(ast.NodeTransformer):
+                        def visit_Name(self, node):
+                            return copy.deepcopy(s.value) if node.id == nm and isinstance(node.ctx, ast.Load) else node
+                    body[uses[0][0]] = ast.fix_missing_locations(Sub().visit(body[uses[0][0]]))
+                    del body[i]
+                    changed = True
+                    break
+    node = copy.copy(fn.node)
+    node.body = body
+    return ast.fix_missing_locations(node)
+
+
 class Roles:
     def __init__(self, prog, mod, fn):
         self.prog, self.mod, self.fn = prog, mod, fn
-        self.node = fn.node
+        self.node = _with_helpers_inlined(prog, mod, fn)
         self.params = [a.arg for a in fn.node.args.args]
 
     def fold(self, n):
@@ -362,11 +394,26 @@ def check_primitives(prog):
             return True
         return False
 
+    def is_join_expr(e):
+        """the 16-bit join written in place (decode16Int inlined, or a helper that reads two bytes at a position)"""
+        if not (isinstance(e, ast.BinOp) and isinstance(e.op, (ast.Add, ast.BitOr)) and
+                any(isinstance(x, ast.Subscript) and isinstance(x.value, ast.Name) and x.value.id in r.params for x in ast.walk(e))):
+            return False
+        scratch = []
+        try:
+            join_16(r, scratch, "decodeString", e)
+        except AnalysisError:
+            return False
+        probs.extend(scratch)
+        return True
+
     def lin0(e):
         ok, v = r.fold(e)
         if ok and isinstance(v, int):
             return (v, False)
         if is_len_expr(e):
+            return (0, True)
+        if is_join_expr(e):
             return (0, True)
         if isinstance(e, ast.Name) and e.id in pos:
             return pos[e.id]
@@ -382,6 +429,12 @@ def check_primitives(prog):
         if v is not None and v[1]:
             pos[x.targets[0].id] = v
             joined = True
+        elif v is not None:
+            pos[x.targets[0].id] = v          # a constant position (start = 0 + 2)
+        elif isinstance(x.value, ast.Name) and x.value.id in pos:
+            pos[x.targets[0].id] = pos[x.value.id]
+        elif isinstance(x.value, ast.Call) and isinstance(x.value.func, ast.Attribute) and x.value.func.attr == "decode":
+            pass                              # the decoded text held in a local before it is returned
         elif not joined:
             join_16(r, probs, "decodeString", x.value)
             pos[x.targets[0].id] = (0, True)
@@ -391,6 +444,11 @@ def check_primitives(prog):
     if len(rets) != 1 or not isinstance(rets[0].value, ast.Tuple) or len(rets[0].value.elts) != 2:
         raise AnalysisError("decodeString: return not recognisable")
     body, rest = rets[0].value.elts
+    if isinstance(body, ast.Name):
+        # the decoded text held in a local before it is returned
+        defs = [x.value for x in asg if x.targets[0].id == body.id]
+        if len(defs) == 1:
+            body = defs[0]
     dec_call = body if isinstance(body, ast.Call) and isinstance(body.func, ast.Attribute) and body.func.attr == "decode" else None
     if dec_call is None or not isinstance(dec_call.func.value, ast.Subscript) or not isinstance(rest, ast.Subscript):
         raise AnalysisError("decodeString: return not recognisable")
@@ -502,6 +560,7 @@ def check_primitives(prog):
                     steps.append(1 << k)
                     shift_form = True
     horner = None
+    horner_post = False
     if not steps:
         # two phases: the 7-bit digits are collected (least significant first) up to the first byte without continuation bit, then
         # folded from the most significant one:  value = value * 128 + digit  over reversed(digits) / digits.pop()
@@ -516,6 +575,22 @@ def check_primitives(prog):
             if ok and isinstance(k, int):
                 steps.append((1 << k) if isinstance(fold[0].value.left.op, ast.LShift) else k)
                 horner = (U(coll[0].func.value), fold[0])
+        if not coll and fold:
+            # the digits are counted instead of collected, and folded by index from the last one down:
+            #   for d in enc: n += 1; if not d & 0x80: break      while n > 0: n -= 1; value = value*128 + (enc[n] & 0x7F)
+            counters = [x.target.id for f_ in ast.walk(r.node) if isinstance(f_, ast.For) for x in f_.body
+                        if isinstance(x, ast.AugAssign) and isinstance(x.op, ast.Add) and isinstance(x.target, ast.Name) and r.fold(x.value) == (True, 1)]
+            idx = [x for x in ast.walk(fold[0].value.right) if isinstance(x, ast.Subscript) and isinstance(x.value, ast.Name)
+                   and x.value.id in r.params and isinstance(x.slice, ast.Name) and x.slice.id in counters]
+            # or enc[n - 1] with the decrement after the fold
+            idx1 = [x for x in ast.walk(fold[0].value.right) if isinstance(x, ast.Subscript) and isinstance(x.value, ast.Name)
+                    and x.value.id in r.params and isinstance(x.slice, ast.BinOp) and isinstance(x.slice.op, ast.Sub)
+                    and isinstance(x.slice.left, ast.Name) and x.slice.left.id in counters and r.fold(x.slice.right) == (True, 1)]
+            ok, k = r.fold(fold[0].value.left.right)
+            if (idx or idx1) and ok and isinstance(k, int):
+                steps.append((1 << k) if isinstance(fold[0].value.left.op, ast.LShift) else k)
+                horner = ("<count:%s>" % (idx[0].slice.id if idx else idx1[0].slice.left.id), fold[0])
+                horner_post = bool(idx1) and not idx
     if len(masks) < 1 or not steps:
         raise AnalysisError("decodeLength: masks / multiplier step not recognisable")
     value_mask = min(masks)
@@ -574,6 +649,21 @@ def check_primitives(prog):
         if isinstance(loopf, ast.While) and any(isinstance(y, ast.Call) and isinstance(y.func, ast.Attribute) and y.func.attr == "pop" and not y.args
                                                 and U(y.func.value) == lst for y in ast.walk(foldst)):
             msf = True
+        if isinstance(loopf, ast.While) and lst.startswith("<count:"):
+            cn = lst[7:-1]
+            body_ = list(loopf.body)
+            dec = [i for i, y in enumerate(body_) if isinstance(y, ast.AugAssign) and isinstance(y.op, ast.Sub) and isinstance(y.target, ast.Name)
+                   and y.target.id == cn and r.fold(y.value) == (True, 1)]
+            fi = [i for i, y in enumerate(body_) if y is foldst]
+            t_ = loopf.test
+            runs_down = (isinstance(t_, ast.Name) and t_.id == cn) or (
+                isinstance(t_, ast.Compare) and len(t_.ops) == 1 and isinstance(t_.left, ast.Name) and t_.left.id == cn
+                and ((isinstance(t_.ops[0], ast.Gt) and r.fold(t_.comparators[0]) == (True, 0)) or
+                     (isinstance(t_.ops[0], ast.GtE) and r.fold(t_.comparators[0]) == (True, 1)) or
+                     (isinstance(t_.ops[0], ast.NotEq) and r.fold(t_.comparators[0]) == (True, 0))))
+            # the index is decremented before it is used: the first digit folded is the last one counted, the last one is digit 0
+            if dec and fi and runs_down and ((dec[0] < fi[0]) != horner_post):
+                msf = True
         if not msf:
             probs.append(Problem("L1", "decodeLength", "accumulate", "the collected digits are folded least significant first: the value "
                                  "comes out with its digits reversed", foldst))
@@ -586,6 +676,13 @@ def check_primitives(prog):
             if ok:
                 inits[x.targets[0].id] = v
     if horner is not None:
+        acc_name = U(horner[1].targets[0])
+        if str(horner[0]).startswith("<count:"):
+            # the counter starts at 0 as well (it counts the digits); what matters is the accumulator
+            cn0 = horner[0][7:-1]
+            if inits.get(cn0) != 0:
+                probs.append(Problem("L1", "decodeLength", "init", "the digit counter must start at 0 (found %s)" % inits.get(cn0), r.node))
+            inits = {k: v for k, v in inits.items() if k != cn0}
         if [v for v in inits.values() if isinstance(v, int)] != [0]:
             probs.append(Problem("L1", "decodeLength", "init", "the folded value must start at 0 (found %s)" % inits, r.node))
     elif sorted(inits.values()) != ([0, 0] if shift_form else [0, 1]):
